@@ -106,10 +106,16 @@ class Pool:
         assert len(set(self.fps)) == NPOOL
         # which plots the representation of each result refers to
         self.plot_id = {}
+        self.fresh_rst_dirty = []
         for i, res in enumerate(self.results):
             rst = self.new_rst()
+            before = list(rst.plots)
+            if before or getattr(rst, 'tree_dict', None) or getattr(rst, 'text_dict', None):
+                # a new Rst object must start empty (it would otherwise carry another report's content)
+                self.fresh_rst_dirty.append((i, len(before)))
             rst.format_result(res)
-            fps = list(rst.plots)        # the plots the code itself registers for this result
+            # the plots the code itself registers for this result
+            fps = [fp for fp in rst.plots if fp not in before]
             for fp in fps:
                 self.plot_id.setdefault(fp, f'p{len(self.plot_id)}')
             self.images.append([self.plot_id[fp] for fp in fps])
@@ -826,6 +832,11 @@ def depth_of(tree):
 
 def run(ctx):
     pool, TestReport = load()
+    if pool.fresh_rst_dirty:
+        ctx.oracle_failure(f'a newly created Rst object is not empty: it already holds the plots / sections '
+                           f'registered through OTHER Rst objects (result index, number of plots): '
+                           f'{pool.fresh_rst_dirty[:5]}', {'kind': 'fresh-rst', 'dirty': pool.fresh_rst_dirty[:20]},
+                           key='fresh-rst-not-empty')
     ctx.rule = ('corpus (index / invalid / duplicate / empty titles, reserved names, depth limit) + random trees '
                 '(depth <= 5 levels, 0-4 children, titles from an alphabet with index, figures, conf.py, .static, '
                 'x.rst ...; flaws injected at controlled rates: invalid title 8%, duplicate siblings 8%, top-level '
